@@ -119,7 +119,7 @@ PLAN = {
     },
     "C04": {
         "sidecars": ["contracts.thinning_c04"],
-        "extra": ["bounded.provider:domination"],
+        "extra": ["bounded.provider:domination", "bounded.provider:thinning"],
         "level": "other",
         "trusted": COMMON_TRUSTED + ["model R"],
         "explanation": 'confirmation ratio and frame of the two-leaf confirmation proved; domination of the 1/r bound is a bounded grid check; composite-object / cell-bounding confirmation sites by a bounded harness with controlled draws',
